@@ -505,7 +505,23 @@ impl<W: WorldOps> Engine<W> {
             let class = if c == 0 { "cap0" } else if l == 0 { "empty" } else if l == c { "full" } else if holes { "partial-after-churn" } else { "partial-fresh" };
             self.rep.count(&format!("clone.src_state.{class}"));
             if d1 != d2 {
-                self.viol(Some(wi), &["C13"], "clone-dump", format!("{}: bookkeeping of the clone differs from the source right after clone(): {:?} vs {:?}", a.name(), d2, d1));
+                // which other properties the difference refutes depends on what differs: other
+                // generations => old handles resolve / are reissued in the clone; another free
+                // list, len or capacity => the clone cannot be refilled exactly; another
+                // archetype version => direct handles differ
+                let mut tags: Vec<&'static str> = vec!["C13"];
+                let gens = |d: &VerifDump| d.slots.iter().map(|s| s.1).collect::<Vec<_>>();
+                if gens(&d1) != gens(&d2) {
+                    tags.push("C01");
+                    tags.push("C08");
+                }
+                if d1.free_head != d2.free_head || d1.len != d2.len || d1.capacity != d2.capacity || d1.slots.iter().map(|s| s.0).ne(d2.slots.iter().map(|s| s.0)) {
+                    tags.push("C12");
+                }
+                if d1.version != d2.version {
+                    tags.push("C09");
+                }
+                self.viol(Some(wi), &tags, "clone-dump", format!("{}: bookkeeping of the clone differs from the source right after clone(): {:?} vs {:?}", a.name(), d2, d1));
                 return None;
             }
             if !ev_same {
